@@ -201,9 +201,10 @@ def r2(ctx):
     got, log = eval_migration(f, m1.path, R)
     best = {}
     for ns, au, key, ts, ln in R:
-        if (ns, au) not in best or ts > best[(ns, au)][0]:
+        # the head entry_put maintains is the greatest (timestamp, key): equal timestamps are resolved by the key
+        if (ns, au) not in best or (ts, key) > best[(ns, au)]:
             best[(ns, au)] = (ts, key)
-    tie = {("n2", "a1"): {(1, "z"), (1, "zz")}}
+    tie = {}
     rows = {}
     okrows = True
     import re as _re
@@ -216,7 +217,7 @@ def r2(ctx):
         rows[(m.group(1), m.group(2))] = (int(mv.group(1)), mv.group(2))
     okrows = okrows and set(rows) == set(best) and all(rows[k] == best[k] or rows[k] in tie.get(k, ()) for k in best)
     ctx.check(got == "Ok(Execute(%d))" % len(best) and okrows, "C18.R2", m1.path, "heads-rebuilt-as-greatest-timestamp-per-author",
-              "evaluated on %d records: returns %s, rows %s; spec: one row per (namespace, author) holding the greatest timestamp and the key of that record: %s" % (len(R), got, rows, best), m1.sp)
+              "evaluated on %d records: returns %s, rows %s; spec: one row per (namespace, author) holding the greatest (timestamp, key) - what entry_put maintains: %s" % (len(R), got, rows, best), m1.sp)
     # entry_put maintains the same shapes
     for head, label in ((None, "author-unknown"), (1, "newer-than-head"), (0, "equal-to-head"), (-1, "older-than-head")):
         got, log = eval_entry_put(f, head)
